@@ -972,12 +972,23 @@ fn check_index_entry(cx: &Ctx) {
                 st.tick(pr);
                 if let Ok(Ok(p)) = catch_unwind(|| DoubleArrayAhoCorasick::<$t>::new(&pats)) {
                     let got: Vec<(usize, usize)> = p.find_overlapping_iter(&hay).map(|m| (m.start(), m.end())).collect();
+                    // C06: a value reported by an automaton built from bare patterns is the position of the matched pattern
+                    if pr == "C06" { for m in p.find_overlapping_iter(&hay) {
+                        let idx = pats.iter().position(|q| q[..] == hay[m.start()..m.end()]);
+                        let want = idx.and_then(|i| <$t>::try_from(i).ok());
+                        if want != Some(m.value()) { st.fail(mk_fail(pr, concat!("index-entry: value reported by an automaton that new() returned for more patterns than ", $name, " can number == position of the matched pattern"), "bytewise build", MatchKind::Standard, 16, &[], &[], &[], format!("position {:?}", idx), format!("value {:?}", m.value()))); break; }
+                    } }
                     if got != exp { st.fail(mk_fail(pr, concat!("index-entry: automaton returned by new() for more patterns than ", $name, " can number reports every occurrence"), "bytewise build", MatchKind::Standard, 16, &[], &[], &[], format!("{} occurrences", exp.len()), format!("{} occurrences", got.len()))); }
                 }
                 let sp: Vec<&str> = pats.iter().map(|p| std::str::from_utf8(p).unwrap()).collect();
                 let hs = std::str::from_utf8(&hay).unwrap();
                 if let Ok(Ok(p)) = catch_unwind(|| CharwiseDoubleArrayAhoCorasick::<$t>::new(&sp)) {
                     let got: Vec<(usize, usize)> = p.find_overlapping_iter(hs).map(|m| (m.start(), m.end())).collect();
+                    if pr == "C06" { for m in p.find_overlapping_iter(hs) {
+                        let idx = pats.iter().position(|q| q[..] == hay[m.start()..m.end()]);
+                        let want = idx.and_then(|i| <$t>::try_from(i).ok());
+                        if want != Some(m.value()) { st.fail(mk_fail(pr, concat!("index-entry: value reported by an automaton that new() returned for more patterns than ", $name, " can number == position of the matched pattern"), "charwise build", MatchKind::Standard, 16, &[], &[], &[], format!("position {:?}", idx), format!("value {:?}", m.value()))); break; }
+                    } }
                     if got != exp { st.fail(mk_fail(pr, concat!("index-entry: automaton returned by new() for more patterns than ", $name, " can number reports every occurrence"), "charwise build", MatchKind::Standard, 16, &[], &[], &[], format!("{} occurrences", exp.len()), format!("{} occurrences", got.len()))); }
                 }
             } }
@@ -1270,6 +1281,33 @@ fn run_overlap_family(cx: &Ctx, seed: u64, sets: usize, threads: usize) {
     });
 }
 
+/// long-chain family: runs of one byte value longer than several blocks, so that whole 256-slot blocks are filled by the children of
+/// single-child states (every BASE value of a block in use), alone and next to short patterns; small num_free_blocks closes such blocks.
+fn run_chain_family(cx: &Ctx, thorough: bool) {
+    let lens: Vec<usize> = if thorough { vec![255, 256, 257, 300, 600, 1100, 1500] } else { vec![257, 600, 1100] };
+    let mut sets: Vec<Vec<Vec<u8>>> = vec![];
+    for &b in &[b'a', 0x00u8, 0xffu8, 0x01u8] {
+        for &n in &lens {
+            sets.push(vec![vec![b; n]]);
+            sets.push(vec![vec![b; n], vec![0xff, 0xff, 0xff], b"abc".to_vec()]);
+            let mut alt: Vec<u8> = vec![]; for i in 0..n { alt.push(if i % 2 == 0 { b } else { b'b' }); }
+            sets.push(vec![alt, vec![b, b, b'z']]);
+        }
+    }
+    std::thread::scope(|sc| {
+        for pats in &sets {
+            sc.spawn(move || {
+                let set: BTreeSet<Vec<u8>> = pats.iter().cloned().collect();
+                if set.len() != pats.len() { return; }
+                let vals: Vec<u32> = (0..pats.len() as u32).collect();
+                let mut hays: Vec<Vec<u8>> = vec![pats[0].clone()];
+                let mut h2 = pats[0][..pats[0].len() - 1].to_vec(); h2.extend_from_slice(b"xabc"); h2.extend_from_slice(&[0xff, 0xff, 0xff]); hays.push(h2);
+                for kind in KINDS { check_set(cx, pats, &vals, kind, &[16, 1, 2], &hays, false); }
+            });
+        }
+    });
+}
+
 /// boundary-character family (char-wise lengths and offsets): characters at the edges of the UTF-8 length classes
 fn run_boundary_chars(cx: &Ctx) {
     let cs: Vec<char> = vec!['\u{7f}', '\u{80}', '\u{7ff}', '\u{800}', '\u{d7ff}', '\u{e000}', '\u{ffff}', '\u{10000}', '\u{10001}', '\u{10ffff}', 'a'];
@@ -1374,6 +1412,7 @@ fn main() {
         run_fanout_family(&cx, seed + 1, threads, true);
         run_overlap_family(&cx, seed, 1500000, threads);
         run_overlap_family(&cx, seed + 1, 500000, threads);
+        run_chain_family(&cx, true);
         run_boundary_chars(&cx);
     } else {
         run_small(&cx, &a1, &[0x02], 3, 3, 6, false, &nfbs, threads, Some((seed, 3)));
@@ -1384,6 +1423,7 @@ fn main() {
         run_bytes_family(&cx, threads, false);
         run_fanout_family(&cx, seed, threads, false);
         run_overlap_family(&cx, seed, 4000, threads);
+        run_chain_family(&cx, false);
         run_boundary_chars(&cx);
     }
     check_conversion(&cx);
